@@ -133,7 +133,16 @@ func runThoroughExtras(c *Ctx, pd *propDef, ri *runInfo, repo string, overlay ma
 			o2.Key = "[386] " + o.Key
 			if o.Verdict != Discharged {
 				bad++
-				c.R.Add(&o2)
+				// the same construct already reported by the default configuration is one finding, not two
+				dup := false
+				for _, p := range c.R.Obls {
+					if p.Rule == o.Rule && p.Key == o.Key && p.Verdict != Discharged {
+						dup = true
+					}
+				}
+				if !dup {
+					c.R.Add(&o2)
+				}
 			}
 		}
 		for _, f := range rep2.Fatal {
